@@ -316,7 +316,15 @@ func checkStreamerFilter(r *Run, p *Prog) {
 	}
 	channels := p.FieldOf("cesium", "StreamerConfig", "Channels")
 	n := 0
-	for _, fn := range append([]*FuncNode{flow}, flow.Lits...) {
+	// every method of the streamer (Flow, its literals, and whatever it was split into)
+	scan := append([]*FuncNode{flow}, flow.Lits...)
+	for _, g := range p.FuncsOfPkg("cesium") {
+		if g.Decl != nil && g != flow && strings.Contains(recvName(g.Decl), "streamer") && !strings.Contains(recvName(g.Decl), "Writer") {
+			scan = append(scan, g)
+			scan = append(scan, g.Lits...)
+		}
+	}
+	for _, fn := range scan {
 		c := p.CFG(fn)
 		inspectNoLit(fn.Body, func(x ast.Node) bool {
 			cl, ok := x.(*ast.CompositeLit)
